@@ -418,14 +418,14 @@ Inductive obs :=
 | ONames (l : list Z)                  (* ListDir: the names in the directory, sorted *)
 | OKind (k : probe).                   (* Stat: absent / file / directory *)
 
-Fixpoint zinsert (x : Z) (l : list Z) : list Z :=
+Fixpoint name_insert (x : Z) (l : list Z) : list Z :=
   match l with
   | [] => [x]
-  | y :: t => if x <? y then x :: l else if x =? y then l else y :: zinsert x t
+  | y :: t => if x <? y then x :: l else if x =? y then l else y :: name_insert x t
   end.
 (* the names n with an entry at d ++ [n], ascending, each once *)
 Definition listing (f : fs) (d : path) : list Z :=
-  fold_right (fun kv acc => match strip d (fst kv) with Some [n] => zinsert n acc | _ => acc end) [] f.
+  fold_right (fun kv acc => match strip d (fst kv) with Some [n] => name_insert n acc | _ => acc end) [] f.
 
 Definition observe (f : fs) (o : op) : obs :=
   match o with
